@@ -5,16 +5,17 @@ import re
 from typing import Any
 
 from ..oracle import astcmp, run
-from . import _diff
+from . import _diff, _lib
 
 ID = "C01"
-USE = ("tok", "sub", "asdl", "lay", "edit", "chr")
+USE = ("tok", "sub", "asdl", "lay", "edit", "chr", "lib")
 VOCABS = ("expr", "stmt", "defs", "match", "lit")
 ENGINE = "E-TOK + E-SUB + E-ASDL + E-LAY + E-EDIT, complete tree comparison (astcmp) against ast.parse"
 RULE = (
     "all lexeme sequences of five Python vocabularies up to the length bound, all fillings of 32 sub-grammar carriers, "
     "all parent-field-child paths (k=3) of Python's abstract grammar rendered by ast.unparse (exec and eval mode), every "
-    "single layout deviation and every single token edit of the corpus programs. Domain: ast.parse accepts, no xonsh-only "
+    "single layout deviation and every single token edit of the corpus programs; every module of the interpreter's own "
+    "standard library that holds no f-string, as a whole file (a failing file is reduced to its first failing statement). Domain: ast.parse accepts, no xonsh-only "
     "lexeme, no f-string, no '@('. Oracle: node types, every field, constants by (type, repr) and all four position "
     "attributes equal. Non-trivial = accepted by CPython and inside the domain (distinct (text, mode) pairs)."
 )
@@ -41,6 +42,9 @@ _MSG = re.compile(r"'[^']*'|\"[^\"]*\"|\d+")
 
 
 def check_case(case: Any, acc: Any) -> None:
+    if isinstance(case, dict) and "pylib" in case:
+        _lib.check_file(case, acc, fstrings=False)
+        return
     src, mode = (case["src"], case.get("mode", "exec")) if isinstance(case, dict) else case
     if not run.c01_domain(src) or not run.python_lexicon(src):
         acc.count("outside:lexicon")
